@@ -1,11 +1,13 @@
 """C01 — setup yields a consistent environment with no residue of superseded versions.
 
 Implementation: Eups(readCache=False, keep, max_depth); selectVRO(tag, versionName, inexact_version);
-eups.app.setup(...) — one forked child per request, histories of requests on one environment.
+eups.app.setup(...), or the whole command line setupcmd.EupsSetup(argv).run() — one forked child per request, histories
+of requests on one environment.
 Model: lean/EupsModel/Model/Setup.lean through the driver handler "c01".
 Oracle (ii): clauses (a) <P>_DIR is the declared directory, (b) own table contributions present, (c) no element under
 the directory of a version that is not the recorded one, (4) explicit top-level version, (5) closure — all computed
-from the generator's graph and the implementation's environment (harness/lib_setup.py)."""
+from the generator's graph and the implementation's environment (harness/lib_setup.py).
+Oracle (i) includes the command list of eups.app.setup, string by string (Model/SetupEmit.lean)."""
 from . import common
 from . import lib_setup as L
 
@@ -14,14 +16,21 @@ RULE = ("case = product graph (3-7 names x 1-3 versions, DAG by name order, requ
         "cycles across versions) + prior environment + history of 1-5 requests (setup/unsetup, keep, max-depth, just, "
         "explicit/bare/relational top-level version, -t beta, --inexact per history); dependency lines with their own "
         "-t (15%) / -k (8%), multi-element envPrepend values, directory-less products, a second stack on 30% of graphs; "
+        "30% of the requests go through the command line entry point setupcmd.EupsSetup(argv).run() (-u -k -j/-S -t -E -Z "
+        "and the printed command text), the others call eups.app.setup; the command list is compared string by string; "
+        "setup --type build with if (type == build) blocks; input classes with floors: all versions of a product sharing ONE "
+        "table file (${PRODUCT_VERSION}) and switched, own directory spelled ${<NAME>_DIR} in the middle of a value, a "
+        "set-up bystander named <requested product>_<suffix>; "
         "a case is non-trivial when some "
         "request changes the environment; distinct = distinct (graph, prior, history) digests")
 TRUSTED = ["harness/lib_setup.py: generator, canonicaliser (element lists split at the variable's delimiter, $S for the "
            "stack root), the tagging of strings as own/foreign elements in lean/EupsModel/Drv/C01.lean",
            "CPython dict/str semantics, os.environ handling, fork"]
 ASSUMPTIONS = ["one or two stacks (a product may be declared in both under one version name; EUPS_PATH is drawn per request), "
-               "one flavor (Linux); product directories distinct and not nested ('none' for directory-less products); versions "
-               "are dotted numbers",
+               "session flavor Linux (C04 has an aimed stream with one product declared -f generic, set up once and then only "
+               "met again under --keep: the flavor fallback loop of Eups.setup — first round on Linux declarations with its "
+               "already-set-up fallback, second round on generic ones — is not modelled, the record's -f flavor is); "
+               "product directories distinct and not nested ('none' for directory-less products); versions are dotted numbers",
                "tables contribute through ${PRODUCT_DIR} or literals that lie under no product directory; no table writes "
                "SETUP_*/*_DIR or uses one variable both as a path and as an envSet target",
                "prior environments are the ones eups itself produced over still-declared versions (clause (c) is "
@@ -29,6 +38,7 @@ ASSUMPTIONS = ["one or two stacks (a product may be declared in both under one v
                "requests nesting deeper than %d levels of Eups.setup (possible only on name-cyclic graphs, where the code "
                "runs into the interpreter's recursion limit) are compared on that fact only" % L.FUEL]
 PID = "C01"
+MIRRORS = L.mirrors(PID)
 
 
 def run(ctx):
@@ -61,6 +71,14 @@ def run(ctx):
     ok = stats.get("ok", 0)
     if done >= 300 and (ok < done * 0.3 or stats.get("switched", 0) < ok * 0.05 or stats.get("c01_prior_ok", 0) < ok * 0.5):
         raise common.InfraError("degenerate distribution: %r of %d requests" % (stats, done))
+    floors = {"class_shared_table_switch": 5, "class_prefix_bystander": 5, "class_mid_reference": 10}
+    low = {k: stats.get(k, 0) for k, f in floors.items() if stats.get(k, 0) < f}
+    if done >= 600 and low:
+        raise common.InfraError("input classes of round 3 under their floors %r: %r of %d requests" % (floors, low, done))
+    if done >= 300 and ctx.histogram.get("entry=setupcmd", 0) < done * 0.15:
+        raise common.InfraError("too few requests through the command line entry point: %r of %d" % (ctx.histogram.get("entry=setupcmd", 0), done))
+    if done >= 300 and (stats.get("sh_compared", 0) < ok * 0.6 or stats.get("sh_quoted", 0) < 20):
+        raise common.InfraError("command lists compared string by string on too few requests: %r of %d" % (stats, done))
 
 
 def replay(ctx, rp):
